@@ -260,4 +260,74 @@ example :
       [Op.add { plainJob with id := some 7 } none, .add { plainJob with id := some 7, name := 2 } none]).2.map (·.res)
       = [.ok, .raised .valueError] := by decide
 
+/-! ## 6. the group is found again *by name*: the file primitives form a store keyed by the file name
+
+The theorems above speak about "the file" of the group.  `JobGroup` finds that file through the group's
+name: `has_file` decides between re-opening and creating, `read_file` loads, `write_file` saves,
+`delete_file` removes, and the path is derived from the name at two sites (`get_full_path` and
+`has_file`'s own join).  `FS.step k` is that machine for a choice `k` of the two derivations. -/
+namespace FS
+
+/-- **named_store.**  Whenever the two sites agree and distinct names get distinct paths (`Coherent`),
+every history of primitive calls and `JobGroup(name)` openings over any number of names observes exactly
+what a store keyed by the *name itself* shows (`step real`): what was last written under a name is what
+is found and read under that name, and nothing else is. -/
+theorem named_store {k : Paths} (hk : Coherent k) (ops : List Op) :
+    (run (step k) empty ops).2 = (run (step real) empty ops).2 :=
+  (refine_run (step k) (step real) (Sim k) (fun s a op h => sim_step hk s a op h) empty empty
+    (sim_empty k) ops).2
+
+/-- the code as it is satisfies the hypothesis -/
+theorem real_paths_coherent : Coherent real := real_coherent
+
+/-- non-vacuity: so does any common injective derivation, e.g. a directory prefix -/
+example : Coherent ⟨fun n => n + 100, fun n => n + 100⟩ := ⟨fun _ => rfl, fun a b h => by simpa using h⟩
+
+/-- **reopen_by_name_finds_saved_group.**  In every directory state, after a group was saved under a name,
+`JobGroup(name)` loads exactly that content and leaves the directory unchanged. -/
+theorem reopen_by_name_finds_saved_group {k : Paths} (hk : Coherent k) (s : Store) (n c : Nat) :
+    step k (writeFile k s n c) (.openGroup n) = (writeFile k s n c, .content (some c)) := by
+  have h1 : hasFile k (writeFile k s n c) n = true := by simp [hasFile, writeFile, hk.1 n]
+  have h2 : readFile k (writeFile k s n c) n = some c := by simp [readFile, writeFile]
+  simp [step, h1, h2]
+
+/-- **other_groups_untouched.**  Saving, deleting or opening a group (even one that does not exist yet, which
+creates its file) never changes what is stored and found under a *different* name. -/
+theorem other_groups_untouched {k : Paths} (hk : Coherent k) (s : Store) (op : Op) (n n' : Nat)
+    (hop : (∃ c, op = .write n c) ∨ op = .delete n ∨ op = .openGroup n) (hne : n' ≠ n) :
+    readFile k (step k s op).1 n' = readFile k s n' ∧ hasFile k (step k s op).1 n' = hasFile k s n' := by
+  have hp : k.full n' ≠ k.full n := fun he => hne (hk.2 _ _ he)
+  have hw : ∀ c, readFile k (writeFile k s n c) n' = readFile k s n' ∧
+      hasFile k (writeFile k s n c) n' = hasFile k s n' := by
+    intro c; simp [readFile, hasFile, writeFile, hk.1 n', hp]
+  rcases hop with ⟨c, rfl⟩ | rfl | rfl
+  · exact hw c
+  · simp [step, readFile, hasFile, deleteFile, hk.1 n', hp]
+  · simp only [step]
+    split
+    · exact ⟨rfl, rfl⟩
+    · exact hw 0
+
+/-- non-vacuity: two groups with different names in one directory, one deleted, both re-opened -/
+example : (run (step real) empty [.write 4 7, .write 5 9, .openGroup 4, .delete 5, .has 5, .openGroup 5, .read 4]).2 =
+    [.done, .done, .content (some 7), .done, .found false, .content (some 0), .content (some 7)] := by decide
+
+/-- regression witness for the two-site shape: if `get_full_path` alone maps names to "portable" ones
+while `has_file` keeps its own join, the hypothesis fails … -/
+theorem portable_not_coherent : ¬ Coherent portable := by
+  intro h
+  have := h.1 1
+  revert this
+  decide
+
+/-- … and so does the property: a group saved under name `1` is not found when re-opened by that
+name; `JobGroup(1)` starts an empty group and overwrites the saved one. -/
+theorem reopen_by_name_fails_when_sites_disagree :
+    (run (step portable) empty [.write 1 7, .openGroup 1, .read 1]).2 =
+      [.done, .content (some 0), .content (some 0)] ∧
+    (run (step real) empty [.write 1 7, .openGroup 1, .read 1]).2 =
+      [.done, .content (some 7), .content (some 7)] := by decide
+
+end FS
+
 end PM.C19
